@@ -201,3 +201,25 @@ func VerifC10HashToken(partitioner string, key []byte) (string, bool) {
 	}
 	return tr.partitioner.Hash(key).String(), true
 }
+
+// VerifC10PolicyMap reads the replica map a token-aware policy currently stores for keyspace
+// (nil, false when there is none): token.String() and the host pointers of every entry, in order.
+func VerifC10PolicyMap(p HostSelectionPolicy, keyspace string) (tokens []string, hosts [][]*HostInfo, ok bool) {
+	t, isTA := p.(*tokenAwareHostPolicy)
+	if !isTA {
+		return nil, nil, false
+	}
+	meta := t.getMetadataReadOnly()
+	if meta == nil {
+		return nil, nil, false
+	}
+	rm, have := meta.replicas[keyspace]
+	if !have {
+		return nil, nil, false
+	}
+	for _, e := range rm {
+		tokens = append(tokens, e.token.String())
+		hosts = append(hosts, append([]*HostInfo(nil), e.hosts...))
+	}
+	return tokens, hosts, true
+}
